@@ -157,7 +157,7 @@ def check(res, tier, seed):
     res.cov["rule"] += ("C20: every object symbol in a writable section of the library built from the current tree is listed (readelf) and classified into coq/C20/Generated.v "
                         "(thread-local by ELF type, the rest by props/C20_audit.json; no rule = Unaccounted breaks the audit theorem); "
                         "the lock modes of BlockAllocSafe are re-extracted from BlockAlloc.h into coq/C20/Generated.v and the protocol theorem is re-checked; "
-                        "then N OS threads (2..8 quick, 2..16 thorough) each drive their own ScriptContext through compile/execute/wait/nested waitthread calls/reset/destroy (every other host sets its own interpreter nesting limit) under "
+                        "then N OS threads (2..8 quick, 2..16 thorough) each drive their own ScriptContext through compile/execute/wait/nested waitthread calls/reset/destroy (every other host sets its own interpreter nesting limit), followed by a pool-churn phase (each thread keeps > 256 entries in its own con::map<str,str>, all drawn from one process-wide pool, and removes/adds 4000 x rounds entries so that slots of full blocks change hands between threads) under "
                         "ThreadSanitizer with seed-dependent start offsets; per-thread output must equal the solo run; distinct = distinct (threads, rounds) shapes. ")
     res.assumptions += ["partial: the theorem covers the lock protocol of the shared pools for every schedule and every number of threads; all other potential races are sampled by ThreadSanitizer only",
                         "the audit of process-wide objects is complete for the binary built from the current tree (checked on every run), but the usage rule of each kind "
